@@ -11,6 +11,7 @@ import random
 import sys
 
 from trie.exceptions import TraversedPartialPath
+from trie.typing import Nibbles
 
 from vt.core import Raised, Violation, cut, run_case_guarded, shrink_list
 from vt.engines import hexary_history as hh
@@ -94,7 +95,7 @@ def run_case(case, ctx):
     walk = {}
     for p in sorted(paths):
         db.reset_counts()
-        res = cut(t.traverse, p, expect=(TraversedPartialPath,))
+        res = cut(t.traverse, [list, tuple, Nibbles][len(p) % 3](p), expect=(TraversedPartialPath,))
         got = describe(res)
         exp = expected(ref, p)
         if got != exp:
@@ -135,7 +136,8 @@ def run_case(case, ctx):
         # deep-to-shallow - the node belongs to the caller and must come out of it unchanged
         for s in sorted(subs) + sorted(subs, reverse=True):
             db.reset_counts()
-            a = describe(cut(t.traverse_from, node, s, expect=(TraversedPartialPath,)))
+            form = [list, tuple, Nibbles][(len(s) + len(q)) % 3]      # the segment as a list / tuple / Nibbles
+            a = describe(cut(t.traverse_from, node, form(s), expect=(TraversedPartialPath,)))
             reads = db.reads
             b = describe(cut(t.traverse, q + s, expect=(TraversedPartialPath,)))
             if a[0] == "partial":
